@@ -67,5 +67,12 @@ for f in sorted(glob.glob(os.path.join(HERE, "wrapsa", "*.py")) + glob.glob(os.p
         if un:
             bad += 1
             print(f"{os.path.relpath(f, HERE)}: {fn.name}: unbound {un}")
-print("selflint:", "clean" if not bad else f"{bad} function(s) with unbound names")
+# the interpreter the evaluation rules rely on agrees with Python on the analyser's own test functions
+import subprocess as _sp
+_r = _sp.run([sys.executable, os.path.join(os.path.dirname(os.path.abspath(__file__)), "interp_selftest.py")], capture_output=True, text=True)
+print(_r.stdout.strip().splitlines()[-1] if _r.stdout.strip() else "interp selftest: no output")
+if _r.returncode != 0:
+    print(_r.stdout)
+    bad += 1
+print("selflint:", "clean" if not bad else f"{bad} problem(s)")
 sys.exit(1 if bad else 0)
